@@ -23,6 +23,34 @@ void ticket_key_material(int id, unsigned char name[16], unsigned char sym[32], 
     for (int i = 0; i < 32; i++) { mac[i] = (unsigned char) r.next(); }
 }
 
+// minimal DER walking for the certificate forger
+static bool der_tlv(const Bytes &b, size_t off, size_t &hdr, size_t &len) {
+    if (off + 2 > b.size()) { return false; }
+    size_t l = b[off + 1]; hdr = 2;
+    if (l & 0x80) { size_t n = l & 0x7f; if (n == 0 || n > 3 || off + 2 + n > b.size()) { return false; } l = 0; for (size_t i = 0; i < n; i++) { l = l << 8 | b[off + 2 + i]; } hdr = 2 + n; }
+    len = l; return off + hdr + len <= b.size();
+}
+// signature BIT STRING content (without the unused-bits octet) of a certificate: offset and length
+static bool der_cert_signature(const Bytes &c, size_t &off, size_t &len) {
+    size_t h, l; if (!der_tlv(c, 0, h, l)) { return false; }
+    size_t p = h; size_t h2, l2;
+    if (!der_tlv(c, p, h2, l2)) { return false; } p += h2 + l2;      // tbsCertificate
+    if (!der_tlv(c, p, h2, l2)) { return false; } p += h2 + l2;      // signatureAlgorithm
+    if (!der_tlv(c, p, h2, l2) || c[p] != 0x03 || l2 < 2) { return false; }
+    off = p + h2 + 1; len = l2 - 1; return true;
+}
+// last byte of the issuer Name inside tbsCertificate
+static bool der_cert_issuer_last_byte(const Bytes &c, size_t &off) {
+    size_t h, l; if (!der_tlv(c, 0, h, l)) { return false; }
+    size_t p = h; size_t h2, l2;
+    if (!der_tlv(c, p, h2, l2)) { return false; } p += h2;           // into tbsCertificate
+    if (c[p] == 0xa0) { if (!der_tlv(c, p, h2, l2)) { return false; } p += h2 + l2; }   // [0] version
+    if (!der_tlv(c, p, h2, l2)) { return false; } p += h2 + l2;      // serialNumber
+    if (!der_tlv(c, p, h2, l2)) { return false; } p += h2 + l2;      // signature algorithm
+    if (!der_tlv(c, p, h2, l2) || c[p] != 0x30 || l2 < 4) { return false; }   // issuer Name
+    off = p + h2 + l2 - 1; return true;
+}
+
 sslKeys_t *load_keys(const KeySpec &ks, int *rc_out) {
     sslKeys_t *keys = nullptr;
     int rc = matrixSslNewKeys(&keys, nullptr);
@@ -33,7 +61,22 @@ sslKeys_t *load_keys(const KeySpec &ks, int *rc_out) {
     }
     KeyMat id; bool have_id = keymat(ks.identity, id);
     Bytes forged;
-    if (have_id && ks.forge_cert_sig) { forged.assign(id.cert, id.cert + id.certLen); forged[forged.size() - 6] ^= 0x04; id.cert = forged.data(); }
+    if (have_id && ks.forge_cert_sig) {
+        forged.assign(id.cert, id.cert + id.certLen);
+        bool done = false;
+        if (ks.forge_cert_mode == 1) {
+            Bytes ca(id.ca, id.ca + id.caLen);
+            size_t so, sl, co, cl, io;
+            // only the FIRST certificate of the blobs is looked at (test identities are single leaf + single CA)
+            if (der_cert_signature(forged, so, sl) && der_cert_signature(ca, co, cl) && sl == cl && der_cert_issuer_last_byte(forged, io)) {
+                memcpy(forged.data() + so, ca.data() + co, sl);
+                forged[io] ^= 0x01;
+                done = true;
+            }
+        }
+        if (!done) { forged[forged.size() - 6] ^= 0x04; }
+        id.cert = forged.data();
+    }
     if (have_id || !cas.empty()) {
         rc = matrixSslLoadKeysMem(keys, have_id ? id.cert : nullptr, have_id ? (int32) id.certLen : 0,
                                   have_id ? id.key : nullptr, have_id ? (int32) id.keyLen : 0,
